@@ -175,6 +175,21 @@ type (
 		Ptr  *[2]CFlag          `serix:",lenPrefix=uint8"`
 		M    map[CFlag][2]CFlag `serix:",lenPrefix=uint8"`
 	}
+	CCustoms struct {
+		F  CuFresh            `serix:""`
+		S  CuSelf             `serix:""`
+		T  CuTab              `serix:""`
+		PS *CuSelf            `serix:""`
+		OS *CuSelfC           `serix:",optional"`
+		L  []CuSelf           `serix:",lenPrefix=uint8"`
+		LT []CuTab            `serix:",lenPrefix=uint16"`
+		A  [2]CuTabC          `serix:",lenPrefix=uint8"`
+		M1 map[CuTab]CuSelf   `serix:",lenPrefix=uint8"`
+		M2 map[CuTabC]uint16  `serix:",lenPrefix=uint8"`
+		M3 map[CuFresh]CuTab  `serix:",lenPrefix=uint8"`
+		M4 map[uint8]CuFreshC `serix:",lenPrefix=uint32"`
+		M5 map[CuTab][]byte   `serix:",lenPrefix=uint8"`
+	}
 	CEmpty      struct{}
 	CEmptyDups  []CEmpty
 	CTimeKeyMap map[time.Time]uint8
@@ -229,6 +244,14 @@ func narrowPrep(api *serix.API) {
 	must(api.RegisterTypeSettings([2]CFlag{}, lpTS(serix.LengthPrefixTypeAsByte)))
 }
 
+// customPrep registers the coded twins of the custom Serializable types.
+func customPrep(api *serix.API) {
+	must(api.RegisterTypeSettings(CuTabC(0), serix.TypeSettings{}.WithObjectType(uint8(61))))
+	must(api.RegisterTypeSettings(CuFreshC{}, serix.TypeSettings{}.WithObjectType(uint32(62))))
+	must(api.RegisterTypeSettings(CuSelfC{}, serix.TypeSettings{}.WithObjectType(uint8(63))))
+	must(api.RegisterTypeSettings([]byte{}, lpTS(serix.LengthPrefixTypeAsByte)))
+}
+
 type catEntry struct {
 	name string
 	top  any
@@ -253,6 +276,13 @@ var catalogue = []catEntry{
 	{name: "wides", top: CWides{}},
 	{name: "arrays", top: CArrays{}},
 	{name: "maps", top: CMaps{}},
+	{name: "customs", top: CCustoms{}, prep: customPrep},
+	{name: "customs-ptr", top: &CCustoms{}, prep: customPrep},
+	{name: "top-custom-map", top: map[CuTab]uint32{}, ts: tsp(lpTS(serix.LengthPrefixTypeAsByte))},
+	{name: "top-custom-map2", top: map[CuTab]CuTab{}, ts: tsp(lpTS(serix.LengthPrefixTypeAsUint16))},
+	{name: "top-custom-self", top: CuSelf{}},
+	{name: "top-custom-coded", top: CuSelfC{}, prep: customPrep},
+	{name: "top-custom-slice", top: []CuFreshC{}, ts: tsp(lpTS(serix.LengthPrefixTypeAsByte)), prep: customPrep},
 	{name: "narrow", top: CNarrow{}, prep: narrowPrep},
 	{name: "top-flags4", top: CFlags4{}, prep: narrowPrep},
 	{name: "top-flags-slice", top: CFlagsS{}, prep: narrowPrep},
